@@ -69,6 +69,36 @@ def main():
             "origin": "written by an independent sub-agent that saw only the property text and its own scratch worktree (nothing from /verif)",
         }
         json.dump(meta, open(os.path.join(d, "meta.json"), "w"), indent=1)
+    # table for DESIGN.md §8
+    rows = ["| seed | property | what it needs to manifest | caught by (quick check: refuted obligations) |", "|---|---|---|---|"]
+    for sid, (prop, what, needs) in sorted(NEEDS.items()):
+        mp = os.path.join(HERE, "seeded", sid, "meta.json")
+        if not os.path.exists(mp):
+            continue
+        m = json.load(open(mp))
+        caught = []
+        for p, v in sorted(m["detection"].items()):
+            if v["check_exit"] == 1:
+                obs = v.get("refuted_obligations", [])
+                caught.append("%s (%d%s)" % (p, v["violation_lines"], (": " + ", ".join("`%s`" % o.split(".", 2)[-1] for o in obs[:2])) if obs else ""))
+            elif v["check_exit"] == 0:
+                caught.append("%s: not caught" % p)
+            else:
+                caught.append("%s: undecided (exit 2)" % p)
+        rows.append("| `%s` | %s | %s | %s |" % (sid, prop, needs, "; ".join(caught) or "not yet run"))
+    bn = []
+    for f in sorted(glob.glob(os.path.join(HERE, ".build", "seed_queue*.log"))) + [os.path.join(HERE, ".build", "seed_manual.log")]:
+        if os.path.exists(f):
+            for line in open(f):
+                m2 = re.match(r"(BNq?_\w+) (C\d\d) exit=(\d+)", line)
+                if m2:
+                    bn.append("`%s` on %s: exit %s" % (m2.group(1), m2.group(2), m2.group(3)))
+    table = "\n".join(rows) + "\n\nProperty-preserving refactorings (must not alarm): " + ("; ".join(bn) or "not yet run") + ".\n"
+    dp = os.path.join(HERE, "DESIGN.md")
+    d = open(dp).read()
+    a, b = d.index("<!-- SEED-TABLE-BEGIN -->"), d.index("<!-- SEED-TABLE-END -->")
+    d = d[:a] + "<!-- SEED-TABLE-BEGIN -->\n" + table + d[b:]
+    open(dp, "w").write(d)
     print("meta.json written for", len([s for s in NEEDS if os.path.isdir(os.path.join(HERE, "seeded", s))]), "seeds;",
           "validated:", len(val), "with detection results:", len(det))
 
